@@ -570,8 +570,13 @@ LEVEL_TEXT = ("For every history (unbounded) of map/unMap/clear/CC/deliveries th
               "every callback sends to its own address a value in [min,max] that grows with the 14-bit input "
               "(C20_bijection_*_partial, from stated IEEE rounding facts). The unrestricted statement is refuted by a computed "
               "witness (C20_refuted = D19, reproduced on the code, known finding). All theorems closed under the global context.")
-LEVEL_NOTE = ("Not proved: consistency of inv_map with the index vectors over all histories (hence crash-freedom and the "
-              "second-controller-of-an-address case), and the rounding facts for the executable rnd; both are covered by the "
+LEVEL_NOTE = ("Stage 2: the system invariant Inv (inv_map / mapping / callback / value vectors and every snapshot consistent) is "
+              "preserved by every event of a quiescent history and makes every step defined (C20_inv_init, C20_inv_step, "
+              "C20_quiescent_crash_free_partial); C20_learn_oldest covers the second controller of an address; "
+              "C20_refines_spec_partial: records of the model = records of the abstract specification (finite map + FIFO) on "
+              "every quiescent history, up to the value a message carries.  "
+              "Not proved: preservation of the 14-bit composition across cloneValues (value part of the refinement), "
+              "and the rounding facts for the executable rnd; both are covered by the "
               "correspondence run (model = code on every generated history incl. all placements of <=3/<=5 deliveries into short "
               "histories, every state field compared) and the independent Spec oracle only. Side condition = classifier "
               "bind-crosses-use-cc. See notes/C20.md.")
